@@ -668,6 +668,73 @@ def replay_h_iter_row_groups(n0, n1, n2, k):
         shutil.rmtree(d, ignore_errors=True)
 
 
+OPTION_VALUES = dict(columns=["a"], categories=[], index=False, row_filter=False, dtypes={})
+
+
+def h_iter_row_groups_options(g_columns: bool, g_categories: bool, g_index: bool, g_row_filter: bool,
+                              g_dtypes: bool, n0: int, n1: int) -> bool:
+    """
+    pre: 1 <= n0 < 2147483648 and 1 <= n1 < 2147483648
+    post: __return__
+    """
+    # every read option given to iter_row_groups reaches the read of every row group with the value given (so each part
+    # is what to_pandas with the same options gives for that row group); options not given are not invented
+    given = dict(columns=g_columns, categories=g_categories, index=g_index, row_filter=g_row_filter, dtypes=g_dtypes)
+    kw = {k: OPTION_VALUES[k] for k in OPTION_VALUES if given[k]}
+    h = _IterHandle([n0, n1])
+    h.cats = {}
+    seen = []
+    saved = _Sliced.to_pandas
+
+    def rec(self, **kwargs):
+        seen.append(kwargs)
+        return _Df(1)
+    _Sliced.to_pandas = rec
+    try:
+        parts = len(list(h.iter_row_groups(**kw)))
+    finally:
+        _Sliced.to_pandas = saved
+    if parts != 2 or len(seen) != 2:
+        return False
+    for got in seen:
+        eff = {k: v for k, v in got.items() if not (k == "filters" and not v)}
+        for k in OPTION_VALUES:
+            if given[k]:
+                if k not in eff or eff[k] is not OPTION_VALUES[k] and eff[k] != OPTION_VALUES[k]:
+                    return False
+            elif eff.get(k) is not None:
+                return False
+    return True
+
+
+def replay_h_iter_row_groups_options(g_columns, g_categories, g_index, g_row_filter, g_dtypes, n0, n1):
+    import shutil, tempfile, os
+    import pandas as pd
+    import fastparquet
+    given = dict(columns=g_columns, categories=g_categories, index=g_index, row_filter=g_row_filter, dtypes=g_dtypes)
+    kw = {k: OPTION_VALUES[k] for k in OPTION_VALUES if given[k]}
+    kw.pop("dtypes", None)
+    d = tempfile.mkdtemp(prefix="c06-")
+    try:
+        fn = os.path.join(d, "t.parq")
+        df = pd.DataFrame({"a": pd.Categorical(["x", "y", "x", "z"]), "b": [1, 2, 3, 4]},
+                          index=pd.Index([10, 11, 12, 13], name="k"))
+        fastparquet.write(fn, df, row_group_offsets=[0, 2])
+        pf = fastparquet.ParquetFile(fn)
+        parts = list(pf.iter_row_groups(**kw))
+        for i, part in enumerate(parts):
+            want = pf[i].to_pandas(**kw)
+            if list(part.columns) != list(want.columns) or [str(t) for t in part.dtypes] != [str(t) for t in
+                                                                                             want.dtypes]:
+                return True, ("iter_row_groups(%s): part %d has columns %r of dtypes %r; to_pandas with the same "
+                              "options on that row group gives %r of dtypes %r" % (
+                                  ", ".join("%s=%r" % kv for kv in kw.items()), i, list(part.columns),
+                                  [str(t) for t in part.dtypes], list(want.columns), [str(t) for t in want.dtypes]))
+        return False, "parts agree with the per-row-group reads"
+    finally:
+        shutil.rmtree(d, ignore_errors=True)
+
+
 # ------------------------------------------------------------------ sliced handles ---
 SLICES = [0, 1, 2, slice(0, 2), slice(1, 3), slice(None, None, 2), slice(2, None), slice(0, 0), slice(None)]
 
